@@ -18,7 +18,8 @@ Record ccase := mkC {
   c_exp_idle : list N;
   c_obs : list op;            (* the calls this run completed, in order *)
   c_full : bool;              (* true: the run was not killed *)
-  c_snap : fs                 (* directory after the run *)
+  c_snap : fs;                (* directory after the run *)
+  c_recovered : bool          (* harness: after deleting the hidden files, csvq could SELECT from every pre-existing table *)
 }.
 
 Definition acq_ops (a : list (bool * N)) : list op :=
@@ -48,12 +49,14 @@ Definition in_window (c : ccase) : bool :=
 
 (* kinds: 1 trace <> model op list; 2 old_or_new false on the directory found (outside the known
    window); 3 directory found <> model state; 4 the commit_ready hypothesis / enabledness fails in the
-   model (harness or model error); 6 old_or_new false exactly in the remove->rename window *)
+   model (harness or model error); 5 every table is old or new, yet after deleting the hidden files
+   csvq cannot read one of them; 6 old_or_new false exactly in the remove->rename window *)
 Definition check_case (c : ccase) : list (N * N) :=
   (if trace_ok c then [] else [(1, cid c)]%N)
   ++ (if state_ok c then [] else [(3, cid c)]%N)
   ++ (if ready_ok c then [] else [(4, cid c)]%N)
-  ++ (if spec_ok c then [] else if in_window c then [(6, cwin c)]%N else [(2, cid c)]%N).
+  ++ (if spec_ok c then (if c_recovered c then [] else [(5, cid c)]%N)
+      else if in_window c then [(6, cwin c)]%N else [(2, cid c)]%N).
 
 Definition check_c10 (cs : list ccase) : list (N * N) := flat_map check_case cs.
 
